@@ -81,3 +81,7 @@ package interpreter
 //@   requires i != nil && srcOK(i)
 //@   opt nosafety
 //@   ensures err != nil ==> len(i.src) == old(len(i.src))
+// Finer than the postcondition above (which fails for definitions the ANALYSIS rejects: known finding): text that does
+// not even parse reaches no state-changing step - the interactive fragment is reset only after parsing succeeded.
+//@   guard call resetInteractiveDefs: err == nil
+//@   guard call Unit: len(i.src) == old(len(i.src)) && i.buffer == old(i.buffer)
